@@ -917,6 +917,11 @@ impl DualStackNetworkNode<P2pLinkTransport> {
     /// reader tasks.  Call this **before** joining background tasks that
     /// are blocked inside `endpoint().recv()`.
     pub async fn shutdown_endpoints(&self) {
+#[cfg(feature = "verif-hooks")]
+        if let Some(sock) = crate::verif_hooks::socket_for(self as *const Self as usize) {
+            sock.shutdown().await;
+            return;
+        }
         if let Some(ref v6) = self.v6 {
             v6.transport.endpoint().shutdown().await;
         }
@@ -1004,6 +1009,10 @@ impl DualStackNetworkNode<P2pLinkTransport> {
 
     /// Send to peer by string PeerId using optimized method
     pub async fn send_to_peer_string_optimized(&self, peer_id: &str, data: &[u8]) -> Result<()> {
+#[cfg(feature = "verif-hooks")]
+        if let Some(sock) = crate::verif_hooks::socket_for(self as *const Self as usize) {
+            return sock.send(peer_id, data).await.map_err(|e| anyhow::anyhow!(e));
+        }
         let ant_peer = string_to_ant_peer_id(peer_id)
             .map_err(|e| anyhow::anyhow!("Invalid peer ID: {}", e))?;
         self.send_to_peer_optimized(&ant_peer, data).await
@@ -1015,6 +1024,11 @@ impl DualStackNetworkNode<P2pLinkTransport> {
     /// to actively tear down the QUIC connection rather than waiting for
     /// idle timeout.
     pub async fn disconnect_peer(&self, peer_id: &PeerId) {
+#[cfg(feature = "verif-hooks")]
+        if let Some(sock) = crate::verif_hooks::socket_for(self as *const Self as usize) {
+            sock.disconnect(&ant_peer_id_to_string(peer_id)).await;
+            return;
+        }
         if let Some(ref v6) = self.v6 {
             v6.disconnect_peer_quic(peer_id).await;
         }
@@ -1040,6 +1054,10 @@ impl<T: LinkTransport + Send + Sync + 'static> DualStackNetworkNode<T> {
 
     /// Happy Eyeballs connect: race IPv6 and IPv4 attempts
     pub async fn connect_happy_eyeballs(&self, targets: &[SocketAddr]) -> Result<PeerId> {
+#[cfg(feature = "verif-hooks")]
+        if let Some(sock) = crate::verif_hooks::socket_for(self as *const Self as usize) {
+            return sock.connect(targets).await.map_err(|e| anyhow::anyhow!(e));
+        }
         let mut v6_targets: Vec<SocketAddr> = Vec::new();
         let mut v4_targets: Vec<SocketAddr> = Vec::new();
         for &t in targets {
@@ -1144,6 +1162,10 @@ impl<T: LinkTransport + Send + Sync + 'static> DualStackNetworkNode<T> {
     ///
     /// Returns `None` when shutdown is signalled or no stacks are available.
     pub async fn accept_any(&self) -> Option<(PeerId, SocketAddr)> {
+#[cfg(feature = "verif-hooks")]
+        if let Some(sock) = crate::verif_hooks::socket_for(self as *const Self as usize) {
+            return sock.accept().await;
+        }
         match (&self.v6, &self.v4) {
             (Some(v6), Some(v4)) => {
                 tokio::select! {
